@@ -186,6 +186,8 @@ def run_catalogue(ctx, facts, tier):
     share = {}      # module name -> {normalised text: example}
     designs = []
     for sp in SPECS:
+        if sp['name'].endswith(':constant-operand'):
+            continue        # the dut of this entry is fed by a sibling Constant: not a closed design of its own
         cfgs = list(sp['configs'](tier))
         step = max(1, len(cfgs) // percfg)
         for p in cfgs[::step][:percfg]:
